@@ -11,7 +11,8 @@ LEAN_TARGETS = ['TxV.Props.C06']
 PROP_MODULES = ['TxV.Props.C06']
 AUDIT = 'Audit/C06.lean'
 ANCHORS = ['txtorcon/socks.py']
-RULE = ('targets: host names of length 1, 2, 63, 64, 254, 255, 256, 300 and random lengths over [a-z0-9.-], IDNA-looking and non-ASCII names, '
+RULE = ('entry points: the SOCKS protocol factory (all cases), and for a third of the targets TorSocksEndpoint.connect, TorClientEndpoint.connect (SOCKS endpoint given) and txtorcon.socks.resolve / resolve_ptr. '
+        'targets: host names of length 1, 2, 63, 64, 254, 255, 256, 300 and random lengths over [a-z0-9.-], IDNA-looking and non-ASCII names, '
         'IPv4 boundary and random literals, IPv6 boundary and random literals; ports 0, 1, 255, 256, 65535 and random (quick) / all 65536 '
         'ports for six targets (thorough); request types CONNECT, RESOLVE, RESOLVE_PTR; plus, for three targets x three types, eight answers to the greeting other than method 0 selected (no request may follow). non-trivial = every case (each sends or refuses a '
         'request); distinct = distinct (type, host, port)')
@@ -30,7 +31,7 @@ def extract():
 def hostnames(rng):
     alpha = 'abcdefghijklmnopqrstuvwxyz0123456789.-'
     out = ['a', 'ab', 'example.com', 'www.torproject.org.', 'xn--bcher-kva.example', 'héllo.com', 'a' * 63 + '.com',
-           'b' * 254, 'c' * 255, 'd' * 256, 'e' * 300, 'timaq4ygg2iegci7.onion', 'UPPER.Case', 'under_score', '1.2.3', '1.2.3.4.5']
+           'b' * 254, 'c' * 255, 'd' * 256, 'e' * 300, 'timaq4ygg2iegci7.onion', 'UPPER.Case', 'TIMAQ4YGG2IEGCI7.ONION', 'Foo.timaq4ygg2iegci7.Onion', 'x.ONION', 'Onion.Example', ' lead', 'trail ', 'tab\tin', 'under_score', '1.2.3', '1.2.3.4.5']
     for _ in range(6):
         out.append(''.join(rng.choice(alpha) for _ in range(rng.choice([3, 17, 64, 128, 200, 255]))))
     return out
@@ -62,6 +63,13 @@ def gen_cases(rng, tier):
             yield {'req': 'CONNECT', 'host': h, 'port': p}
         yield {'req': 'RESOLVE', 'host': h, 'port': 0}
         yield {'req': 'RESOLVE_PTR', 'host': h, 'port': 0}
+    # the same targets through the public entry points that end in the same request packers
+    for h in hosts + v4[:6] + v6[:8]:
+        p = rng.choice(ports)
+        yield {'req': 'CONNECT', 'host': h, 'port': p, 'entry': 'socks-endpoint'}
+        yield {'req': 'CONNECT', 'host': h, 'port': p, 'entry': 'client-endpoint'}
+        yield {'req': 'RESOLVE', 'host': h, 'port': 0, 'entry': 'function'}
+        yield {'req': 'RESOLVE_PTR', 'host': h, 'port': 0, 'entry': 'function'}
     # "only after the server selects it": any other answer to the greeting (another method, no acceptable method, another
     # version, an incomplete answer, nothing) — and no request goes out
     for h in ['example.com', '1.2.3.4', '2001:db8::1']:
@@ -76,7 +84,7 @@ def gen_cases(rng, tier):
 
 def run_impl(c):
     try:
-        im = socksh.Impl(c['req'], c['host'], c['port'])
+        im = socksh.Impl(c['req'], c['host'], c['port'], entry=c.get('entry', 'factory'))
     except Exception as e:
         return ['ctor-raised ' + type(e).__name__]
     outs = im.do(['connect'])
@@ -160,7 +168,7 @@ def run_cases(cases, drv, tier):
         else:
             im_view = im
         kind, _ = socksh.classify_target(c['host'])
-        tags = [c['req'], kind, 'not-selected' if not selected else 'refuse-expected' if exp == 'refused' else 'encodable', 'port=%s' % ('0' if c['port'] == 0 else 'max' if c['port'] == 65535 else 'n')]
+        tags = [c['req'], kind, 'entry=' + c.get('entry', 'factory'), 'not-selected' if not selected else 'refuse-expected' if exp == 'refused' else 'encodable', 'port=%s' % ('0' if c['port'] == 0 else 'max' if c['port'] == 65535 else 'n')]
         res.append(Result(c, im_view, model, spec, corr_ok=corr_ok, prop_ok=prop_ok, in_h=True, nontrivial=True, tags=tags))
     return res
 
